@@ -295,7 +295,10 @@ def build():
     ea.rewrite('R11-op', 'let ab_product = a_val * b_val;', 'let ab_product = a_val.mul(b_val);')
     ea.rewrite('R11-op', 'let out_val = ab_product + c_val;', 'let out_val = ab_product.add(c_val);')
     ea.rewrite('R11-op', 'let result = acc_val * b_val + c_val - a_val;', 'let result = acc_val.mul(b_val).add(c_val).sub(a_val);')
-    ea.rewrite('R6', 'a_val.try_inverse().ok_or(CircuitError::DivisionByZero)?', '(match a_val.try_inverse() { Some(i_) => i_, None => { return Err(CircuitError::DivisionByZero); } })')
+    # R6 (general): `X.ok_or(E)?` -> match with early return;  `X.try_inverse().unwrap_or(D)` -> match
+    ea.rewrite_re('R6', r'(\w+\.try_inverse\(\))\s*\.ok_or\(([^()]+)\)\?', r'(match \1 { Some(i_) => i_, None => { return Err(\2); } })', min_count=0)
+    ea.rewrite_re('R6', r'(\w+\.try_inverse\(\))\s*\.unwrap_or\(([^()]+)\)', r'(match \1 { Some(i_) => i_, None => \2 })', min_count=0)
+    ea.rewrite_re('R11', r'\bF::ZERO\b', 'F::zero()', min_count=0)
     ea.rewrite('R9', 'intermediate_out.expect("HornerAcc requires acc in intermediate_out")', 'intermediate_out.unwrap()')
     ea.rewrite('R9', 'c.expect("HornerAcc requires c operand")', 'c.unwrap()')
     ea.rewrite('R6', 'c.unwrap_or(WitnessId(0))', '(match c { Some(x_) => x_, None => WitnessId(0) })')
